@@ -11,7 +11,10 @@ use crate::{
     model::{network::vertex_id::VertexId, unit::cost::ReverseCost},
     util::priority_queue::InternalPriorityQueue,
 };
+#[cfg(not(all(kani, feature = "verif-models")))]
 use std::collections::HashMap;
+#[cfg(all(kani, feature = "verif-models"))]
+use crate::util::verif_collections::HashMap;
 
 /// generates a set of k-shortest paths using the single-via path algorithm.
 pub fn run(
